@@ -112,6 +112,24 @@ func renderFresh(srcs map[string]string, name string, ctx map[string]interface{}
 	return res
 }
 
+// largeTwinPad is an inert comment longer than the 4096-byte threshold at which the engine switches to its second tokenizer.
+var largeTwinPad = "{# " + strings.Repeat("large twin filler ", 230) + "#}"
+
+// maybeLarge appends the inert comment to every template of one case in six (chosen by a hash of the sources, so a replay
+// makes the same choice). A comment contributes nothing, so the reference output is unchanged, but every tag of the case is
+// then read by the large-template tokenizer instead of the small one.
+func maybeLarge(rec *core.Recorder, srcs map[string]string) map[string]string {
+	if core.Hash64(canonSrcs(srcs))%6 != 0 {
+		return srcs
+	}
+	rec.Count("large-tokenizer-twins", 1)
+	out := make(map[string]string, len(srcs))
+	for k, v := range srcs {
+		out[k] = v + largeTwinPad
+	}
+	return out
+}
+
 func fmtTicks(t []int64) string {
 	parts := make([]string, len(t))
 	for i, x := range t {
